@@ -4,6 +4,7 @@ package main
 // (define-fun per hash-consed term), queries as check-sat-assuming over named Bool terms.
 
 import (
+	"os"
 	"bufio"
 	"fmt"
 	"io"
@@ -12,6 +13,8 @@ import (
 	"strings"
 	"time"
 )
+
+var solverLogN int
 
 type Result int
 
@@ -51,6 +54,7 @@ type Solver struct {
 	errors    []string
 	log       io.Writer
 	dead      bool
+	stderr    *strings.Builder
 }
 
 func NewSolver(name string, timeoutMs int) (*Solver, error) {
@@ -79,7 +83,8 @@ func (s *Solver) start() error {
 	if err != nil {
 		return err
 	}
-	cmd.Stderr = nil
+	s.stderr = &strings.Builder{}
+	cmd.Stderr = s.stderr
 	if err := cmd.Start(); err != nil {
 		return err
 	}
@@ -87,6 +92,12 @@ func (s *Solver) start() error {
 	s.defined = map[int32]bool{}
 	s.declared = map[string]bool{}
 	s.dead = false
+	if p := os.Getenv("VERIF_SOLVER_LOG"); p != "" {
+		solverLogN++
+		if f, err := os.Create(fmt.Sprintf("%s-%s-%d-%d.smt2", p, s.spec.Name, os.Getpid(), solverLogN)); err == nil {
+			s.log = f
+		}
+	}
 	s.send("(set-option :produce-models true)\n")
 	if strings.HasPrefix(s.spec.Name, "z3") && s.timeoutMs > 0 {
 		s.send(fmt.Sprintf("(set-option :timeout %d)\n", s.timeoutMs))
@@ -182,6 +193,20 @@ func (s *Solver) readLine() (string, error) {
 	}
 }
 
+// Declare makes sure the given variables exist in the solver (so that get-value can name them after a check).
+func (s *Solver) Declare(vars []*Term) {
+	var sb strings.Builder
+	for _, v := range vars {
+		if !s.declared[v.name] {
+			s.declared[v.name] = true
+			fmt.Fprintf(&sb, "(declare-const %s %s)\n", quoteName(v.name), v.sort)
+		}
+	}
+	if sb.Len() > 0 {
+		s.send(sb.String())
+	}
+}
+
 // Check decides satisfiability of the conjunction of conds.
 func (s *Solver) Check(conds []*Term) Result {
 	if s.dead {
@@ -209,7 +234,15 @@ func (s *Solver) Check(conds []*Term) Result {
 	for {
 		line, err := s.readLine()
 		if err != nil {
-			s.errors = append(s.errors, "solver died: "+err.Error())
+			msg := "solver died: " + err.Error()
+			if s.stderr != nil && s.stderr.Len() > 0 {
+				e := s.stderr.String()
+				if len(e) > 300 {
+					e = e[:300]
+				}
+				msg += " stderr: " + strings.ReplaceAll(e, "\n", " | ")
+			}
+			s.errors = append(s.errors, msg)
 			break
 		}
 		if strings.HasPrefix(line, "(error") {
@@ -262,6 +295,12 @@ func (s *Solver) Values(vars []*Term) (Model, error) {
 			j = len(vars)
 		}
 		var sb strings.Builder
+		for _, v := range vars[i:j] {
+			if !s.declared[v.name] {
+				s.declared[v.name] = true
+				fmt.Fprintf(&sb, "(declare-const %s %s)\n", quoteName(v.name), v.sort)
+			}
+		}
 		sb.WriteString("(get-value (")
 		for _, v := range vars[i:j] {
 			sb.WriteString(quoteName(v.name))
